@@ -127,7 +127,10 @@ type Dataflow struct {
 	// Branch, if set, refines the state along the true/false edge of a conditional block. It is
 	// called on the leaves of the condition (after splitting &&, || and !) whose truth is implied.
 	Branch func(leaf ast.Expr, truth bool, s Facts) Facts
-	in     map[*cfg.Block]Facts
+	// OnCycle, if set, is called by Paths when a path reaches a block that is already on it (a loop
+	// back edge): the state is the one carried along the path into that block.
+	OnCycle func(to *cfg.Block, s Facts)
+	in      map[*cfg.Block]Facts
 }
 
 // refine applies Branch to the leaves of cond whose value is implied by cond == truth.
@@ -412,6 +415,9 @@ func (d *Dataflow) Paths(info *types.Info, endPos token.Pos, max int) (exits []E
 			return
 		}
 		if onPath[b] {
+			if d.OnCycle != nil {
+				d.OnCycle(b, s)
+			}
 			return
 		}
 		onPath[b] = true
